@@ -52,6 +52,27 @@ class StmtMixin:
             if isinstance(v, VNone): return NULL
         if kind == 'optint' and isinstance(v, (VOpt, VNone, VInt)): return self.toopt(v)
         if kind == 'var' and isinstance(v, VLpVar): return v.t
+        if kind == 'py': return self.topy(v)
+        if kind == 'crit':
+            if isinstance(v, VUnion):
+                tup = [(c, x) for c, x in v.alts if isinstance(x, VTuple) and len(x.items) == 2]
+                if len(tup) == 1:
+                    if p is not None:
+                        for c, x in v.alts:
+                            if x is not tup[0][1]: self.vc('subset/union-resolved@%d' % line, p, z3.Not(c), kind='subset', line=line)
+                    v = tup[0][1]
+            if isinstance(v, VTuple) and len(v.items) == 2:
+                o = v.items[0]; x = v.items[1]
+                code = z3.IntVal(self.repo.enums[o.cls][o.name]) if isinstance(o, VEnum) else o.t
+                if isinstance(x, VPy): raise Undecided('criterion extras must be None or a list')
+                alts = x.alts if isinstance(x, VUnion) else [(z3.BoolVal(True), x)]
+                noext = z3.BoolVal(False); ext = NOLIST
+                for c, a in alts:
+                    if isinstance(a, VNone): noext = z3.If(c, z3.BoolVal(True), noext)
+                    elif isinstance(a, VList) and a.kind == 'int': ext = z3.If(c, a.term(), ext)
+                    elif isinstance(a, VCList) and not a.items: ext = z3.If(c, empty_list('int').term(), ext)
+                    else: raise Undecided('criterion extras %r' % (a,))
+                return Crit.mk(code, z3.simplify(noext), z3.simplify(ext))
         if kind == 'tok':
             if isinstance(v, VTok): return v.t
             if isinstance(v, VStr): return self.shape_tok(v)
@@ -112,6 +133,7 @@ class StmtMixin:
             v = self.typed_empty(v, self.contract.get('locals', {}).get(tgt.id), p)
             if isinstance(v, tuple): raise Undecided('untyped list of lists')
             p.env[tgt.id] = v
+            p.ghost.pop('unbound:' + tgt.id, None)
             if tgt.id in p.alias:
                 cont, idx = p.alias[tgt.id]
                 self.lv_set_elem(cont, idx, v, p, line)
@@ -287,7 +309,7 @@ class StmtMixin:
     def bind_target(self, tgt, val, p, line, alias=None, k=None):
         if isinstance(tgt, ast.Name):
             p.env[tgt.id] = val
-            p.alias.pop(tgt.id, None)
+            p.alias.pop(tgt.id, None); p.ghost.pop('unbound:' + tgt.id, None)
             if alias is not None and isinstance(val, VList): p.alias[tgt.id] = (alias, VInt(k))
             return
         if isinstance(tgt, (ast.Tuple, ast.List)):
@@ -302,25 +324,84 @@ class StmtMixin:
         lc = self.contract.get('loops', {}).get(ordinal)
         self.iter_list = None
         n, at, alias, conc = self.iter_desc(s.iter, p, s.lineno)
-        if lc is None:
+        if lc is None or 'cut' in lc:
             if conc is None: raise StaleContract('loop %d (line %d) has no invariant and no concrete bound' % (ordinal, s.lineno))
-            return self.unroll_for(s, p, conc, at, alias)
+            return self.unroll_for(s, p, conc, at, alias, lc, ordinal)
         return self.inv_loop(s, p, ordinal, lc, n, at, alias, is_while=False)
 
-    def unroll_for(self, s, p, conc, at, alias):
+    def unroll_for(self, s, p, conc, at, alias, lc=None, ordinal=0):
+        """Exact unrolling (complete).  An optional 'cut' (facts proved after every iteration, then assumed) only splits the
+        proof into per-iteration steps; the state is never havocked."""
         live = [p]; done = []
         for c in range(conc):
             k = z3.IntVal(c); nxt = []
+            base = min(len(q.pc) for q in live) if len(live) == 1 else None
             for q in live:
                 self.bind_target(s.target, at(k), q, s.lineno, alias, k)
                 for st, r, pay in self.exec_block(s.body, [q]):
                     if st in ('normal', 'continue'): nxt.append(r)
                     elif st == 'break': done.append(('normal', r, None))
                     else: done.append((st, r, pay))
-            live = self.merge_paths(nxt)
+            live = self.merge_paths(nxt, base)
+            if lc is not None:
+                for q in live:
+                    q.env['_k'] = VInt(c + 1)
+                    for i, src in enumerate(lc['cut']):
+                        t = z3.simplify(self.spec_eval(src, q))
+                        if z3.is_true(t): continue         # guard with the concrete iteration number is false: nothing to show
+                        self.vcs.append(VC('loop%d/cut%d@iter%d' % (ordinal, i, c + 1), list(q.pc), t, 'invariant', s.lineno, self.fn.key))
+                        q.assume(t)
+                    q.env.pop('_k', None)
         return [('normal', q, None) for q in live] + done
 
-    def merge_paths(self, paths): return paths
+    def merge_paths(self, paths, base_len=None):
+        """State merging at the end of an exactly-unrolled iteration: paths that forked inside the iteration are joined
+        again when every differing value can be expressed as an ite (keeps literal-table loops linear)."""
+        if len(paths) < 2 or base_len is None: return paths
+        out = []
+        for q in paths:
+            for i, r in enumerate(out):
+                m = self.try_merge(r, q, base_len)
+                if m is not None: out[i] = m; break
+            else: out.append(q)
+        return out
+
+    def try_merge(self, a, b, base_len):
+        if len(a.pc) < base_len or len(b.pc) < base_len: return None
+        if any(not x.eq(y) for x, y in zip(a.pc[:base_len], b.pc[:base_len])): return None
+        if set(a.objs) != set(b.objs): return None
+        ca = z3.And(*a.pc[base_len:]) if len(a.pc) > base_len else z3.BoolVal(True)
+        cb = z3.And(*b.pc[base_len:]) if len(b.pc) > base_len else z3.BoolVal(True)
+        m = a.fork()
+        try:
+            for k in set(a.env) | set(b.env):
+                if k in a.env and k in b.env:
+                    if a.env[k] is not b.env[k]: m.env[k] = self.merge(ca, a.env[k], b.env[k])
+                else:
+                    # bound on one side only: keep the value, remember when it is bound (reading it otherwise is an error)
+                    m.env[k] = a.env[k] if k in a.env else b.env[k]
+                    a.ghost.setdefault('unbound:' + k, z3.BoolVal(k in a.env)); b.ghost.setdefault('unbound:' + k, z3.BoolVal(k in b.env))
+            for oid in a.objs:
+                if set(a.objs[oid]) != set(b.objs[oid]): return None
+                for f in a.objs[oid]:
+                    if a.objs[oid][f] is not b.objs[oid][f]: m.objs[oid][f] = self.merge(ca, a.objs[oid][f], b.objs[oid][f])
+            for k in set(a.heap) | set(b.heap):
+                x, y = a.heap.get(k), b.heap.get(k)
+                if x is None or y is None or not x.eq(y): return None
+            for k in set(a.has) | set(b.has):
+                x, y = a.has.get(k), b.has.get(k)
+                if x is None or y is None or not x.eq(y): return None
+            for k in set(a.ghost) ^ set(b.ghost):
+                if not k.startswith('unbound:'): return None
+                a.ghost.setdefault(k, z3.BoolVal(True)); b.ghost.setdefault(k, z3.BoolVal(True))     # absent = bound
+            for k in a.ghost:
+                if a.ghost[k] is not b.ghost[k]:
+                    if z3.is_expr(a.ghost[k]) and z3.is_expr(b.ghost[k]): m.ghost[k] = z3.If(ca, a.ghost[k], b.ghost[k])
+                    else: return None
+        except Undecided:
+            return None
+        m.pc = a.pc[:base_len] + [z3.Or(ca, cb)]
+        return m
 
     def st_While(self, s, p):
         if s.orelse: raise Undecided('while-else')
